@@ -71,7 +71,8 @@ fn multisets(m: usize, k: usize, cur: &mut Vec<usize>, start: usize, f: &mut dyn
 }
 
 // two names sort before "collateral" and two after it (blocks are visited in name order)
-const NAMES: [&str; 4] = ["a", "b", "x", "y"];
+// two of them differ only in case: names are matched as written
+const NAMES: [&str; 4] = ["a", "A", "b", "x"];
 
 /// Runs a template with the given blocks; `names[i]` is the name of source block i.
 /// Returns per-block selections in NAME order, or the error kind.
